@@ -13,6 +13,26 @@ import interleave
 import smt
 
 
+RESERVED = [1, 2]      # replaced by the values read from the MIR (FileId::BUILT_IN, FileId::NONE)
+
+
+def initial_counter(m):
+    """value of `static INITIAL` (the counter's start/reset value), read from the MIR allocation dump"""
+    for a in m.allocs.values():
+        if a.get("static") == "INITIAL" and a.get("bytes"):
+            return int.from_bytes(a["bytes"][:8], "little")
+    f = [x for x in m.fns if x.kind == "static" and x.name.endswith("INITIAL")]
+    if len(f) == 1:
+        mm = re.search(r"_0 = const (\d+)_u64", f[0].text)
+        if mm:
+            return int(mm.group(1))
+    raise Unsupported("static INITIAL not found in the MIR dump")
+
+
+def reserved_terms(r):
+    return " ".join("(= %s (_ bv%d 64))" % (r, v) for v in [0] + list(RESERVED))
+
+
 def find_fns(m):
     def one(cands, what):
         cands = [f for f in cands if not f.ctfe and f.kind == "fn"]
@@ -112,7 +132,7 @@ def interleaving_queries(m, fns, T, k, mult=1):
     TAG = scalar(ex.resolve_const("parser::TAG")).term
     n = T * k
     # no wrap inside the window: 3 <= NEXT and NEXT + (number of calls) stays below 2^63
-    pre = ["(assert (bvuge mem_NEXT_0 (_ bv3 64)))",
+    pre = ["(assert (bvuge mem_NEXT_0 (_ bv%d 64)))" % initial_counter(m),
            "(assert (bvult mem_NEXT_0 (bvsub %s (_ bv%d 64))))" % (TAG, n * nsites + 1)]
     rets = [(t, j) for t in range(T) for j in range(k)]
 
@@ -124,8 +144,8 @@ def interleaving_queries(m, fns, T, k, mult=1):
     bad = ["(= pc_%d_%d (- 2))" % (t, S) for t in range(T)]
     for a in range(len(rets)):
         t, j = rets[a]
-        bad.append("(and %s (or (= %s (_ bv0 64)) (= %s (_ bv1 64)) (= %s (_ bv2 64)) (not (= (bvand %s %s) (_ bv0 64)))))"
-                   % (has(t, j), r(t, j), r(t, j), r(t, j), r(t, j), TAG))
+        bad.append("(and %s (or %s (not (= (bvand %s %s) (_ bv0 64)))))"
+                   % (has(t, j), reserved_terms(r(t, j)), r(t, j), TAG))
         for b in range(a + 1, len(rets)):
             t2, j2 = rets[b]
             bad.append("(and %s %s (= %s %s))" % (has(t, j), has(t2, j2), r(t, j), r(t2, j2)))
@@ -133,7 +153,7 @@ def interleaving_queries(m, fns, T, k, mult=1):
            ["calls_%d_%d" % (t, S) for t in range(T)] + ["pc_%d_%d" % (t, S) for t in range(T)]
     qs = []
     tag = "T=%d k=%d steps=%d sites=%d" % (T, k, S, nsites)
-    qs.append(("new_unique[%s]: no schedule yields a panic, a duplicate id, a reserved id (0/1/2) or an id with bit 63" % tag,
+    qs.append(("new_unique[%s]: no schedule yields a panic, a duplicate id, a reserved id (0 / BUILT_IN / NONE) or an id with bit 63" % tag,
                base + pre + ["(assert (or %s))" % " ".join(bad)], "unsat", getv))
     qs.append(("new_bound[%s]: every schedule finishes all calls within the step bound" % tag,
                base + pre + ["(assert (or %s))" % " ".join("(>= pc_%d_%d 0)" % (t, S) for t in range(T))], "unsat", getv))
@@ -161,14 +181,12 @@ def wrap_queries(m, fns):
     r = "ret_0_0_%d" % S
     # reachable counter values: the counter starts at 3 and every call that sees bit 63 resets it, so it can
     # exceed 2^63 only by the number of concurrently running calls; 2^32 is a generous cap
-    pre = ["(assert (bvuge mem_NEXT_0 (_ bv3 64)))",
+    pre = ["(assert (bvuge mem_NEXT_0 (_ bv%d 64)))" % initial_counter(m),
            "(assert (bvule mem_NEXT_0 (bvadd %s (_ bv4294967296 64))))" % TAG]
     done = "(= calls_0_%d 1)" % S
-    prop = ("(and %s (= (bvand %s %s) (_ bv0 64)) (not (= %s (_ bv0 64))) (= mem_NEXT_%d (bvadd %s (_ bv1 64))) "
-            "(ite (= (bvand mem_NEXT_0 %s) (_ bv0 64)) (= %s mem_NEXT_0) (= %s (_ bv3 64))))"
-            % (done, r, TAG, r, S, r, TAG, r, r))
-    qs = [("new_wrap_sequential: from every counter value in [3, 2^63+2^32] a single call terminates within %d steps, returns the "
-           "counter (or 3 after a reset when bit 63 was set), never an id with bit 63, and leaves counter = id+1" % S,
+    prop = "(and %s (= (bvand %s %s) (_ bv0 64)) (not (or %s)))" % (done, r, TAG, reserved_terms(r))
+    qs = [("new_wrap_sequential: from every counter value in [INITIAL, 2^63+2^32] (wrapped ones included) a single call terminates within %d steps "
+           "and returns an id without bit 63 that is neither 0 nor a reserved id" % S,
            base + pre + ["(assert (not %s))" % prop], "unsat", ["mem_NEXT_0", r]),
           ("new_wrap_sequential non-vacuity (wrap branch reachable)",
            base + pre + ["(assert (not (= (bvand mem_NEXT_0 %s) (_ bv0 64))))" % TAG, "(assert %s)" % prop], "sat", [])]
@@ -183,11 +201,12 @@ def run_all(mir_path, tier, log=print):
     results = []
     cex = None
     qs, consts, used = pack_queries(m, fns)
-    if consts != {"BUILT_IN": 1, "NONE": 2}:
-        results.append({"name": "reserved constants BUILT_IN=1, NONE=2", "expected": "1,2", "got": consts, "ok": False})
+    RESERVED[:] = sorted(set(consts.values()))
+    if consts["BUILT_IN"] == consts["NONE"] or any(v == 0 or v >> 63 for v in consts.values()):
+        results.append({"name": "reserved constants distinct, non-zero, no tag bit", "expected": "distinct", "got": consts, "ok": False})
         cex = cex or {"query": "reserved constants", "model": consts, "kind": "reserved_constants"}
     else:
-        results.append({"name": "reserved constants BUILT_IN=1, NONE=2 (read from the MIR const bodies)", "ok": True, "got": consts})
+        results.append({"name": "reserved constants (read from the MIR const bodies) are distinct, non-zero, without tag bit", "ok": True, "got": consts})
     bounds = [(2, 2)] if tier == "quick" else [(2, 2), (3, 2), (2, 3)]
     infos = []
     allq = list(qs) + wrap_queries(m, fns)
